@@ -95,6 +95,8 @@ func ruleC12(c *Check) {
 	c.respondRules("C12")
 	c.expiredBatchRules("C12", map[string]bool{"clean-order": true, "complete-at-expiry": true})
 	c.expiryScanGuard("C12.3")
+	// "otherwise when its expiry block ends, and never earlier": the batch expiry is queued at the height its requests expire
+	c.heightSkeletons("C12.3")
 	c.startRules("C12")
 }
 
